@@ -76,7 +76,7 @@ func scenarios(tier string) []vlib.Scenario {
 	}
 	qoss := []q{{message.QoSReliable, false}, {message.QoSPartial, false}, {message.QoSUnreliable, false}, {message.QoSUnreliable, true}}
 	if propID == "C20" {
-		qoss = []q{{message.QoSReliable, false}, {message.QoSUnreliable, true}}
+		qoss = []q{{message.QoSReliable, false}} // chunk cutting does not depend on the QoS (C01 covers all QoS)
 	}
 	maxLen := 2
 	if tier == "thorough" {
@@ -110,7 +110,7 @@ func scenarios(tier string) []vlib.Scenario {
 		}
 	}
 	// three-step histories that let acknowledgements settle between the last write and Close
-	three := [][]string{{"wA1", "wB1", "Z"}, {"wA1", "F", "wB1"}, {"wA2", "wB1", "F"}, {"wB1", "wB1", "Z"}, {"wA1", "Z", "wA2"}, {"w0", "wA1", "F"}, {"wA1", "wA2", "wB1"}}
+	three := [][]string{{"wA1", "wB1", "Z"}, {"wA1", "F", "wB1"}, {"wA2", "wB1", "F"}, {"wB1", "wB1", "Z"}, {"wA1", "Z", "wA2"}, {"w0", "wA1", "F"}, {"wA1", "wA2", "wB1"}, {"wA2", "wA2", "wA1"}, {"wA2", "wA2", "Z"}}
 	for _, pol := range policies {
 		for _, h := range three {
 			add(params{Policy: pol, QoS: message.QoSReliable, Ops: h, Writers: 1})
